@@ -908,7 +908,13 @@ def _valid_frames(rng, ft):
     return [raw for a, raw, f, tr in consistent_frames(rng) if f == ft and not tr and not a[3][0] and not a[5][0]][:60]
 
 
+def _valid_frames_fecf(rng, ft):
+    return [raw for a, raw, f, tr in consistent_frames(rng) if f == ft and not tr and not a[3][0] and a[5][0] and len(a[5]) == 3][:60]
+
+
 DECODERS = [
+    {"op": 1625, "name": "TransferFrame.unpack(VARIABLE,FECF)", "extra": [[1, 0, 9, 0, 1, 0, 0, 1, 2]],
+     "valid": lambda rng: _valid_frames_fecf(rng, 1), "declared_len": lambda b: (b[4] * 256 + b[5] + 1) if not b[3] & 1 else 9},
     {"op": 1601, "name": "PrimaryHeader.unpack", "extra": [[12]], "valid": _valid_phdrs,
      "declared_len": lambda b: 7 + (b[6] & 7)},
     {"op": 1603, "name": "TruncatedPrimaryHeader.unpack", "extra": [[12]], "valid": _valid_thdrs, "declared_len": lambda b: 4},
